@@ -151,7 +151,7 @@ pub fn run(tier: Tier) -> i32 {
         }
     };
     let shards = 64u64;
-    let per = tier.n(600, 6000);
+    let per = tier.n(600, 40_000);
     let seed = ctx.seed;
     let mut tally = ctx.par(shards, |s| shard(seed, s, per, false));
     // deliberately exercise the listed finding (literal '+' in paths) in a small separate sub-workload
